@@ -235,8 +235,7 @@ def check(pm: ProgramModel, ctx: Ctx) -> None:
         raise AnalysisError(rule, "anchor vanished: FMMetrics.execute/get_result")
     mb = ModelBuilder(pm)
     where_cls = loc(fmm.unit.path, fmm.node)
-    nmetrics = sum(1 for m in fmm.methods.values() if any("metric_method" in d for d in m.decorators()))
-    ctx.floor(rule, "metric methods", nmetrics, 36)
+    metric_meths: list[str] = []
 
     def report(fm: AObj, flt: Optional[list[str]] = None) -> Any:
         it = Interp(pm, max_depth=60)
@@ -251,13 +250,28 @@ def check(pm: ProgramModel, ctx: Ctx) -> None:
         except AbsMutation as exc:
             return ("raise", "mutation " + exc.what, exc.where)
 
+    # the metric methods: the decorated methods of the class that the report mechanism treats as metrics - marked by a
+    # decorator named after metrics, or (whatever the decorator is called) answering a filter on their name with one entry
+    probe = rich_model(mb)
+    for meth in sorted(fmm.methods):
+        decs = fmm.methods[meth].decorators()
+        if not decs or meth.endswith(".setter") or set(decs) & {"staticmethod", "classmethod", "property", "abstractmethod"}:
+            continue
+        if any("metric" in d.split("(")[0] for d in decs):
+            metric_meths.append(meth)
+            continue
+        r1 = report(probe, [meth])
+        if isinstance(r1, list) and len(r1) == 1:
+            metric_meths.append(meth)
+    nmetrics = len(metric_meths)
+    ctx.floor(rule, "metric methods", nmetrics, 36)
     for mname, fm in models(mb).items():
         rep = report(fm)
         if isinstance(rep, tuple):
             # find which metric raises: evaluate the metric methods one by one
             culprits = []
-            for meth in sorted(fmm.methods):
-                if any("metric_method" in d for d in fmm.methods[meth].decorators()):
+            for meth in metric_meths:
+                if True:
                     r1 = report(fm, [meth])
                     if isinstance(r1, tuple):
                         culprits.append((meth, r1[1], r1[2]))
@@ -428,9 +442,7 @@ def check(pm: ProgramModel, ctx: Ctx) -> None:
     full_by = {e["name"]: (e["result"], e["size"], e["ratio"]) for e in full} if isinstance(full, list) else {}
     seen_names: dict[str, str] = {}
     nalone = 0
-    for meth in sorted(fmm.methods):
-        if not any("metric_method" in d for d in fmm.methods[meth].decorators()):
-            continue
+    for meth in metric_meths:
         nalone += 1
         r1 = report(fm, [meth])
         if isinstance(r1, tuple):
